@@ -59,6 +59,7 @@ struct RoundSpec {
   bool detach_after;
   uint32_t nfuncs;     // compiler-virt: number of functions
   bool relocate;       // the finished program is relocated to a base address (as JitRuntime::add would do)
+  bool explicit_serialize;  // Builder: serialize_to() a caller's Assembler instead of finalize()
   bool raw_node;       // Builder: one instruction node is created through new_inst_node() without operands
   bool holder_logger;  // the logger is attached to the holder instead of the emitter
   bool annotate;       // Compiler with a logger: DiagnosticOptions::kRAAnnotate
@@ -80,6 +81,7 @@ RoundSpec decode(const Op& op) {
   s.annotate = (f >> 20) & 1;
   s.holder_logger = (f >> 21) & 1;
   s.raw_node = (f >> 22) & 1;
+  s.explicit_serialize = (f >> 23) & 1;
   if (s.mode == 2 && s.emitter_kind != kAsm) s.mode = 0;
   return s;
 }
@@ -163,7 +165,23 @@ bool generate(const RoundSpec& s, CodeHolder& code, BaseEmitter& e, gen::Recordi
     if (err == Error::kOk) { b.add_node(node); sim::count("c16.probe.raw_inst_node"); }
     else if (sim::run_faults_fired_total() > 0 && allow_abandon) return false;
   }
-  if (s.emitter_kind != kAsm) {
+  if (s.emitter_kind == kBuilder && s.explicit_serialize) {
+    // serialize_to() into an Assembler of the caller instead of finalize(): same output, and when it returns the destination
+    // holds nothing that lives in the Builder (the inline comment of the last node, say)
+    std::unique_ptr<BaseEmitter> dst(s.target == gen::Target::kA64 ? static_cast<BaseEmitter*>(new a64::Assembler()) : static_cast<BaseEmitter*>(new x86::Assembler()));
+    Error err = code.attach(dst.get());
+    if (err == Error::kOk) {
+      dst->add_diagnostic_options(e.diagnostic_options());
+      err = static_cast<BaseBuilder&>(e).serialize_to(dst.get());
+      SIM_CHECK(dst->inline_comment() == nullptr && dst->inst_options() == InstOptions::kNone && !dst->has_extra_reg(), "c16:residue-in-serialization-target",
+                "after serialize_to() the destination emitter still holds one-shot state of the Builder's nodes (inline comment %p, options %#x)", (const void*)dst->inline_comment(), unsigned(dst->inst_options()));
+      (void)code.detach(dst.get());
+      sim::count("c16.probe.explicit_serialize_to");
+    }
+    errors.push_back(uint32_t(err));
+    if (err != Error::kOk) return false;
+  }
+  else if (s.emitter_kind != kAsm) {
     Error err = e.finalize();
     errors.push_back(uint32_t(err));
     if (err != Error::kOk) return false;
@@ -514,6 +532,7 @@ Plan generate_rounds_with(uint64_t seed, bool thorough, bool faults) {
     f |= uint64_t(r.below(kRecycleCount)) << 12;    // recycle action
     if (r.chance(1, 4)) f |= uint64_t(1 + r.below(7)) << 16;   // one-shot state left pending when the round ends
     if (r.chance(1, 3)) f |= uint64_t(1) << 19;                // the finished program is relocated
+    if (r.chance(1, 3)) f |= uint64_t(1) << 23;                // Builder: serialize_to() instead of finalize()
     if (r.chance(1, 3)) f |= uint64_t(1) << 22;                // Builder: a raw instruction node without operands
     if (r.chance(1, 2)) f |= uint64_t(1) << 21;                // the logger is attached to the holder
     if (r.chance(1, 2)) f |= uint64_t(1) << 20;                // Compiler: the register allocator annotates the code (visible in the log)
